@@ -56,13 +56,14 @@ func errLitExcludesOther(l eng.PathLit, errVal ssa.Value, isClassifier func(*ssa
 func isEOFSentinel(v ssa.Value) bool {
 	if ld, ok := v.(*ssa.UnOp); ok && ld.Op == token.MUL {
 		if g, ok := ld.X.(*ssa.Global); ok && g.Pkg != nil && g.Pkg.Pkg.Path() == "io" {
-			return g.Name() == "EOF" || g.Name() == "ErrUnexpectedEOF"
+			return g.Name() == "EOF"
 		}
 	}
 	return false
 }
 
-// eofClassifier: body is only a boolean combination of == against io.EOF / io.ErrUnexpectedEOF of its parameter.
+// eofClassifier: body is only a boolean combination of == against io.EOF of its parameter. (io.ErrUnexpectedEOF is what
+// readers of compressed or framed streams return for a truncated input: it is a failure, not the end of the input.)
 func eofClassifier(fn *ssa.Function) bool {
 	if fn == nil || len(fn.Params) != 1 || len(fn.Blocks) == 0 {
 		return false
@@ -178,7 +179,7 @@ func runC08(c *Ctx) {
 		return
 	}
 	src := ts.Params[0]
-	// ---- R08.3: single consuming call, io.ReadFull -------------------------------------
+	// ---- R08.3: single consuming call, a fill loop that reports the reader's own error ----------
 	var read *ssa.Call
 	nUses := 0
 	for _, r := range *src.Referrers() {
@@ -187,11 +188,18 @@ func runC08(c *Ctx) {
 		case *ssa.Call:
 			nUses++
 			n := core.StaticCalleeName(&x.Call)
-			if n == "io.ReadFull" && x.Call.Args[0] == src {
+			f := x.Call.StaticCallee()
+			switch {
+			case len(x.Call.Args) >= 2 && x.Call.Args[0] == ssa.Value(src) && f != nil && core.FuncPkgPath(f) == v2pkg:
 				read = x
-				c.R.OK("R08.3", "tokenizeStream: the reader is consumed through io.ReadFull", p.Pos(x.Pos()), "fills the whole window or reports an end-of-input class error")
-			} else {
-				c.R.Fail("R08.3", "tokenizeStream: the reader is consumed through "+n, p.Pos(x.Pos()), "only io.ReadFull guarantees a full window unless the stream ends: with short reads the window logic sees fragments, so the result depends on how the reader delivers its bytes")
+				okF, whyF := fillHelperShape(f)
+				c.R.Check(okF, "R08.3", "tokenizeStream: the reader is consumed through a loop that fills the window and reports the reader's own error", p.Pos(x.Pos()), whyF, whyF)
+			case (n == "io.ReadFull" || n == "io.ReadAtLeast") && x.Call.Args[0] == ssa.Value(src):
+				read = x
+				c.R.Fail("R08.3", "tokenizeStream: the reader is consumed through a loop that fills the window and reports the reader's own error", p.Pos(x.Pos()),
+					n+" reports a short final read as io.ErrUnexpectedEOF and passes the reader's own error through unchanged, so a reader that fails with io.ErrUnexpectedEOF (a truncated gzip/tar/HTTP stream) cannot be told from the end of the input; it also drops an error that arrives together with the bytes that complete the buffer")
+			default:
+				c.R.Fail("R08.3", "tokenizeStream: the reader is consumed through "+n, p.Pos(x.Pos()), "only a loop that fills the whole window (or stops at the reader's error) makes the result independent of how the reader delivers its bytes: with short reads the window logic sees fragments")
 			}
 		default:
 			nUses++
@@ -213,7 +221,7 @@ func runC08(c *Ctx) {
 		}
 	}
 	if errVal == nil {
-		c.R.Fail("R08.1", "tokenizeStream: the reader's error is examined", p.Pos(read.Pos()), "the error result of io.ReadFull is discarded")
+		c.R.Fail("R08.1", "tokenizeStream: the reader's error is examined", p.Pos(read.Pos()), "the error result of the window read is discarded")
 		return
 	}
 	_ = nVal
@@ -239,7 +247,7 @@ func runC08(c *Ctx) {
 		}
 		nCl++
 		c.R.Check(eofClassifier(f), "R08.1", "tokenizeStream: end of input is recognised by an EOF classifier ("+f.Name()+")", p.Pos(cv.Pos()),
-			"body is a boolean combination of == io.EOF / io.ErrUnexpectedEOF", "the function that decides `end of input` accepts other errors or looks at something else: a failing reader is mistaken for the end of the stream")
+			"body is a boolean combination of == io.EOF", "the function that decides `end of input` accepts other errors or looks at something else: a failing reader is mistaken for the end of the stream")
 	}
 	for _, b := range ts.Blocks {
 		for _, in := range b.Instrs {
@@ -600,4 +608,139 @@ func isEOFDisjunction(v ssa.Value, errVal ssa.Value, isClassifier func(*ssa.Func
 		return true
 	}
 	return false
+}
+
+// windowRead finds the call of tokenizeStream that fills the read window from the reader parameter: io.ReadFull /
+// io.ReadAtLeast, or a function of the package that takes the reader and the window (a fill loop).
+func windowRead(ts *ssa.Function) *ssa.Call {
+	if len(ts.Params) == 0 {
+		return nil
+	}
+	src := ts.Params[0]
+	var read *ssa.Call
+	for _, call := range core.CallsIn(ts) {
+		cv, ok := call.(*ssa.Call)
+		if !ok || len(cv.Call.Args) < 2 || cv.Call.Args[0] != ssa.Value(src) {
+			continue
+		}
+		if _, isSlice := cv.Call.Args[1].(*ssa.Slice); !isSlice {
+			continue
+		}
+		n := core.StaticCalleeName(&cv.Call)
+		f := cv.Call.StaticCallee()
+		if n == "io.ReadFull" || n == "io.ReadAtLeast" || (f != nil && core.FuncPkgPath(f) == v2pkg) {
+			read = cv
+		}
+	}
+	return read
+}
+
+// fillHelperShape: f(src io.Reader, buf []byte) (n int, err error) is
+//
+//	for n < len(buf) && err == nil { m, err = src.Read(buf[n:]); n += m }; return n, err
+//
+// i.e. the reader is only used through Read on the unfilled rest of buf, the loop goes on exactly while the buffer is
+// not full and no error was reported, the count is the sum of the counts and the error is the reader's own.
+func fillHelperShape(f *ssa.Function) (bool, string) {
+	if len(f.Params) != 2 || len(f.Blocks) == 0 || f.Signature.Results().Len() != 2 {
+		return false, "the window is not filled by a function (reader, buffer) -> (count, error)"
+	}
+	src, buf := f.Params[0], f.Params[1]
+	var read *ssa.Call
+	for _, r := range *src.Referrers() {
+		switch x := r.(type) {
+		case *ssa.DebugRef:
+		case *ssa.Call:
+			if x.Call.IsInvoke() && x.Call.Value == ssa.Value(src) && x.Call.Method.Name() == "Read" && read == nil {
+				read = x
+			} else {
+				return false, "the fill loop uses the reader through something else than one Read call site"
+			}
+		default:
+			return false, "the reader escapes from the fill loop"
+		}
+	}
+	if read == nil {
+		return false, "the fill function does not call Read on the reader"
+	}
+	sl, ok := read.Call.Args[0].(*ssa.Slice)
+	if !ok || sl.X != ssa.Value(buf) || sl.High != nil || sl.Low == nil {
+		return false, "Read is not given the unfilled rest of the buffer (buf[n:])"
+	}
+	nPhi, ok := sl.Low.(*ssa.Phi)
+	if !ok {
+		return false, "the fill position is not a loop-carried count"
+	}
+	var cnt, errV ssa.Value
+	for _, r := range *read.Referrers() {
+		if ex, ok := r.(*ssa.Extract); ok {
+			if ex.Index == 0 {
+				cnt = ex
+			} else {
+				errV = ex
+			}
+		}
+	}
+	if cnt == nil || errV == nil {
+		return false, "a result of Read is discarded in the fill loop"
+	}
+	for _, e := range nPhi.Edges {
+		if k, isK := core.ConstInt(e); isK && k == 0 {
+			continue
+		}
+		bo, isBo := e.(*ssa.BinOp)
+		if !isBo || bo.Op != token.ADD || !((bo.X == ssa.Value(nPhi) && bo.Y == cnt) || (bo.Y == ssa.Value(nPhi) && bo.X == cnt)) {
+			return false, "the fill position is not the sum of the counts returned by Read"
+		}
+	}
+	// the loop goes on only while the buffer is not full and no error was reported
+	full, noErr := false, false
+	var errPhi ssa.Value
+	for _, ft := range core.FactsAt(read.Block()) {
+		cmp, ok := ft.AsCmp()
+		if !ok {
+			continue
+		}
+		if cmp.Op == token.LSS && cmp.X == ssa.Value(nPhi) {
+			if call, isCall := cmp.Y.(*ssa.Call); isCall {
+				if bi, isB := call.Call.Value.(*ssa.Builtin); isB && bi.Name() == "len" && call.Call.Args[0] == ssa.Value(buf) {
+					full = true
+				}
+			}
+		}
+		if cmp.Op == token.EQL {
+			if cst, isC := cmp.Y.(*ssa.Const); isC && cst.Value == nil {
+				if ph, isPhi := cmp.X.(*ssa.Phi); isPhi {
+					okEdges := true
+					for _, e := range ph.Edges {
+						if c2, isC2 := e.(*ssa.Const); isC2 && c2.Value == nil {
+							continue
+						}
+						if e != errV {
+							okEdges = false
+						}
+					}
+					if okEdges {
+						noErr, errPhi = true, ph
+					}
+				}
+			}
+		}
+	}
+	if !full {
+		return false, "the fill loop does not go on while the buffer is not full (n < len(buf)): short reads show through as partial windows"
+	}
+	if !noErr {
+		return false, "the fill loop does not stop at the first error the reader reports"
+	}
+	for _, b := range f.Blocks {
+		ret, ok := b.Instrs[len(b.Instrs)-1].(*ssa.Return)
+		if !ok {
+			continue
+		}
+		if len(ret.Results) != 2 || ret.Results[0] != ssa.Value(nPhi) || ret.Results[1] != errPhi {
+			return false, "the fill function does not return the bytes filled and the reader's own error unchanged"
+		}
+	}
+	return true, "for n < len(buf) && err == nil { m, err = src.Read(buf[n:]); n += m }; return n, err"
 }
